@@ -225,6 +225,7 @@ func (c *Client) HandlePresence(p stanza.Presence, r xmlstream.TokenReadEncoder)
 	case stanza.UnavailablePresence:
 		delete(c.managed, channel.addr.String())
 		channel.joined = false
+		verifhook.Yield("muc.presence.depart.before")
 		select {
 		case channel.depart <- struct{}{}:
 		default:
